@@ -77,6 +77,9 @@ def scenario_for(seed, index, tier):
                                         min(4, len(unsup_names))))
     call = rng.choice(['connect', 'connect', 'connect', 'status'])
     auth = rng.random() < 0.3
+    # the token may be authenticated / refreshed (its profile changes in
+    # place) after the Connection was built around it
+    auth_late = auth and rng.random() < 0.4
     # what the server says on a status connection
     allowed_protos = None
     try:
@@ -142,6 +145,7 @@ def scenario_for(seed, index, tier):
         len(allowed_protos) == 1
     sc = {
         'allowed': allowed, 'initial': initial, 'call': call, 'auth': auth,
+        'auth_late': auth_late,
         'host': rng.choice(HOSTS), 'port': rng.choice(PORTS),
         'handle_status': hs, 'handle_ping': hp, 'status': status,
         'server': {'conns': [
@@ -300,6 +304,9 @@ def execute(scenario, tape):
             return
         st['construct'] = 'ok'
         w.conn = conn
+        if scenario.get('auth_late'):
+            tok.profile.id_ = 'd' * 32
+            tok.profile.name = 'LateProfile'
 
         def user():
             if scenario.get('prior'):
@@ -441,7 +448,8 @@ def check(scenario, w, st, res):
                 V.append(('C09/status-request-count', app.status_requests))
         else:
             ob(2)
-            want_name = 'ProfileName' if scenario['auth'] else 'OfflineName'
+            want_name = ('LateProfile' if scenario.get('auth_late') else
+                         'ProfileName') if scenario['auth'] else 'OfflineName'
             if app.login_name != want_name:
                 V.append(('C09/login-start-name',
                           {'got': app.login_name, 'want': want_name}))
